@@ -20,6 +20,8 @@ type recvLoop struct {
 	pkt, err ssa.Value
 	okStart  Loc // first instruction on the err == nil edge
 	errStart Loc // first instruction on the err != nil edge
+	brStart  Loc // the branch on NextPacket's error itself: paths that start here carry the assertion they took
+	okIdx    int // successor index of the err == nil edge
 	universe map[string]types.Type
 	stanzas  map[string]types.Type
 	unknown  []string
@@ -60,10 +62,11 @@ func analyseRecvLoop(w *World, fn *ssa.Function) (*recvLoop, error) {
 	// edge 0 asserts (x==nil) == truth0 if eq, else (x!=nil)==truth0
 	errIsNilOnEdge0 := (eq == truth0)
 	if errIsNilOnEdge0 {
-		rl.okStart, rl.errStart = Loc{b.Succs[0], 0}, Loc{b.Succs[1], 0}
+		rl.okStart, rl.errStart, rl.okIdx = Loc{b.Succs[0], 0}, Loc{b.Succs[1], 0}, 0
 	} else {
-		rl.okStart, rl.errStart = Loc{b.Succs[1], 0}, Loc{b.Succs[0], 0}
+		rl.okStart, rl.errStart, rl.okIdx = Loc{b.Succs[1], 0}, Loc{b.Succs[0], 0}, 1
 	}
+	rl.brStart = Loc{b, len(b.Instrs) - 1}
 	w.returnedDynTypes(w.Func("stanza.NextPacket"), 0, 0, rl.universe, &rl.unknown)
 	var unk2 []string
 	w.returnedDynTypes(w.Func("stanza.decodeClient"), 0, 0, rl.stanzas, &unk2)
@@ -85,7 +88,27 @@ func (rl *recvLoop) isNextPacket(in ssa.Instruction) bool { return in == ssa.Ins
 // pathsFor enumerates the feasible paths of one iteration for dynamic type T:
 // from the err==nil edge to the next NextPacket call or a return.
 func (rl *recvLoop) pathsFor(T types.Type, visit func(path []ssa.Instruction, end pathEnd)) error {
-	return walkPaths(rl.okStart, rl.isNextPacket, typeEdgeFilter(rl.pkt, T), 20000, visit)
+	return walkPaths(rl.brStart, rl.isNextPacket, rl.okOnly(typeEdgeFilter(rl.pkt, T)), 20000, visit)
+}
+
+// okOnly / errOnly: edge filters for paths that start at the branch on NextPacket's error (brStart): only the
+// err == nil (resp. err != nil) edge of that branch is followed; elsewhere f decides.
+func (rl *recvLoop) okOnly(f func(*ssa.BasicBlock, int) bool) func(*ssa.BasicBlock, int) bool {
+	return func(b *ssa.BasicBlock, succ int) bool {
+		if b == rl.brStart.B {
+			return succ == rl.okIdx
+		}
+		return f == nil || f(b, succ)
+	}
+}
+
+func (rl *recvLoop) errOnly(f func(*ssa.BasicBlock, int) bool) func(*ssa.BasicBlock, int) bool {
+	return func(b *ssa.BasicBlock, succ int) bool {
+		if b == rl.brStart.B {
+			return succ != rl.okIdx
+		}
+		return f == nil || f(b, succ)
+	}
 }
 
 // routeCalls: calls (plain/go) to (*Router).route whose packet argument is the received value.
